@@ -1122,7 +1122,7 @@ fn c20_run(func: &str, replay: Option<Value>, seed: u64) -> Value {
     } }
     let mut chg_rnd = 0;
     while chg_rnd < budget(120) {
-        let (h, change, hidden) = if chg_rnd % 40 == 39 { let h = bulk_hist(&[400, 150, 60, 20, 5], rng.below(1_000_000)); let n = h.n(); let c = (0..n).map(|i| if i % 7 == 3 { i - 1 } else { i }).collect(); (h, c, vec![n - 1]) } else { chg_random(&mut rng, 30) };
+        let (h, change, hidden) = if chg_rnd % 40 == 39 { let h = bulk_hist(&[400, 150, 60, 20, 5], rng.below(1_000_000)); let n = h.n(); let far = chg_rnd % 80 == 39; let c = (0..n).map(|i| if far { if i > 80 && i % 5 == 2 { i - 75 } else { i } } else if i % 7 == 3 { i - 1 } else { i }).collect(); (h, c, vec![n - 1]) } else { chg_random(&mut rng, 30) };
         let n = h.n();
         let within: Vec<usize> = if rng.below(2) == 0 { vec![] } else { (0..1 + rng.below(6)).map(|_| rng.below(n as u64) as usize).collect::<BTreeSet<_>>().into_iter().collect() };
         chg_rnd += 1;
